@@ -12,7 +12,8 @@ Shapes == {"absent", "file", "dir", "dir+a", "dir+.c", "link"}
 ShapesOf(i) == IF i = 5 THEN {"absent", "file", "dir+a"} ELSE Shapes
 Trees == {t \in [1..Len(TopNames) -> Shapes] : \A i \in 1..Len(TopNames) : t[i] \in ShapesOf(i)}
 Comps == << <<"a">>, <<"*">>, <<"?">>, <<"a", "*">>, <<".", "*">>, <<"[", "a", "b", "]", "*">>, <<"\\", "a">>, <<"a", "?">>,
-            <<"b", "\\", "*">>, <<"*", "b">>, <<"?", "?">>, <<"a", "\\", "\\">> >>
+            <<"b", "\\", "*">>, <<"*", "b">>, <<"?", "?">>, <<"a", "\\", "\\">>,
+            <<"\\", "a", "*">>, <<"\\", ".", "*">> >>      \* an escaped ordinary character / period followed by a wildcard
 
 CONSTANT Sel               \* the indices of the trees to emit (the quick tier samples)
 ShapeSeq == <<"absent", "file", "dir", "dir+a", "dir+.c", "link">>
